@@ -6,6 +6,8 @@ from .. import callform, gen, tol
 from ..core import fp_watch
 from ..models import search as S
 
+from . import _jobs  # noqa: E402
+
 PROPERTY = "C13"
 LEVEL = "exploration"
 LEVEL_TEXT = ("Post-condition monitor on process.interpolate and Weaver.interpolate per method against definitional "
@@ -24,7 +26,7 @@ RULE = ("case = series of 4..60 points x x class x y class (or affine data) x me
         "points that are not samples; distinct by case index."
         " Also: integer-dtype and pandas-Series grids, the documented 'left' keyword of the constant method together with a grid point equal to x[0], Weaver requests after random range-changing histories, method omitted (default linear)."
         " Round-4 classes: method as 4th positional argument / new_x and n by position, n as NumPy integer scalar, series of 1001..1800 samples.")
-REQUIRED_MONITORS = ["c13:at_samples", "c13:constant", "c13:linear", "c13:affine", "c13:weaver_grid", "c13:grid_rejected"]
+REQUIRED_MONITORS = ["threads:interp", "c13:at_samples", "c13:constant", "c13:linear", "c13:affine", "c13:weaver_grid", "c13:grid_rejected"]
 ASSUMPTIONS = ["x strictly increasing, >= 4 points, new grid sorted (non-decreasing)",
                "extrapolation of linear / cubic / spline is outside the statement and not judged"]
 NSHARDS = 16
@@ -33,6 +35,10 @@ SMOOTH_REL = 1e-9
 
 
 def plan(tier, seed):
+    return _plan(tier, seed) + _jobs.plan(tier)
+
+
+def _plan(tier, seed):
     n = 16000 if tier == "quick" else 1000000
     return [{"kind": "random", "start": p * (n // NSHARDS), "count": n // NSHARDS} for p in range(NSHARDS)]
 
@@ -245,9 +251,13 @@ def run_case(ctx, kind_, idx):
 
 
 def run(ctx, spec):
+    if spec["kind"] == "threads":      # concurrent independent requests vs their sequential answers
+        return _jobs.run(ctx, spec, ["interp"])
     for idx in range(spec["start"], spec["start"] + spec["count"]):
         run_case(ctx, spec["kind"], idx)
 
 
 def replay(ctx, case):
+    if case["kind"] == "threads":
+        return _jobs.run_case(ctx, ["interp"], case["idx"])
     run_case(ctx, case["kind"], case["idx"])
